@@ -165,9 +165,12 @@ theorem fast_loops_agree (fixed : Bool) (txSize : Bytes → Nat) (pl : Bytes) (n
     NetRouteInvExt, GetStats …) to its lock trace; the lock-set scan of Model/NetParseLocks finds on
     the regenerated traces: no return / end of function with a lock taken there still held (unless its
     Unlock is deferred), no `break` / `continue` / `goto` leaving with a changed lock set, no second
-    Lock of a held mutex, no Unlock of an unheld one, and every access to InvDone.Map, PendingInvs,
-    c.InvStore, GetBlockInProgress deletes and peersdb.PeerDB.Put/Del inside the span of its lock.
-    (Per function and path-insensitive; locks taken inside callees are not followed.) -/
+    Lock of a held mutex, no Unlock of an unheld one, no call - while a mutex is held - of a function of
+    these files that locks the same mutex itself (through its receiver, e.g. `c.DoS()` under c.Mutex, or
+    a package-level mutex; one level deep: the callee's own trace), and every access to InvDone.Map,
+    PendingInvs, c.InvStore, GetBlockInProgress deletes and peersdb.PeerDB.Put/Del inside the span of
+    its lock. (Per function and path-insensitive; beyond that one level, locks taken inside callees are
+    not followed.) -/
 theorem lock_discipline_current : NetParse.Locks.complaints Gen.NetFacts.lockTraces = [] := by decide +kernel
 
 /-- the shared accesses the traces are known to contain (so that a renamed field cannot silently
@@ -182,15 +185,30 @@ theorem shared_accesses_tracked :
     ("OneConnection.ParseAddr", "peersdb.PeerDB.Put", "peersdb") ∈ Gen.NetFacts.sharedAccesses ∧
     64 ≤ Gen.NetFacts.lockTraces.length := by decide +kernel
 
+/-- the call edges the previous theorem speaks about are really in the regenerated facts: SendRawMsg's
+    overflow path calls DoS, which locks the connection's mutex (so SendRawMsg must have released it),
+    and the handlers reach SendRawMsg / DoS / Misbehave from Run. -/
+theorem call_locks_tracked :
+    ("OneConnection.SendRawMsg", "OneConnection.DoS", "c.Mutex") ∈ Gen.NetFacts.callLocks ∧
+    ("OneConnection.Run", "OneConnection.SendRawMsg", "c.Mutex") ∈ Gen.NetFacts.callLocks ∧
+    ("OneConnection.ProcessBlockTxn", "OneConnection.Misbehave", "c.Mutex") ∈ Gen.NetFacts.callLocks ∧
+    ("DoNetwork", "OneConnection.MutexSetBool", "conn.Mutex") ∈ Gen.NetFacts.callLocks ∧
+    150 ≤ Gen.NetFacts.callLocks.length := by decide +kernel
+
 /-- the scan is not vacuous: it accepts the current shapes of ParseAddr's database-full path and of
     processGetData's InvStore, and rejects `continue` with the peers-database lock held, InvStore
-    outside c.Mutex, and a return between Lock and Unlock. -/
+    outside c.Mutex, a return between Lock and Unlock, and - with every exit covered by a deferred
+    Unlock - a call of a function that locks the held mutex again (accepted when the mutex was released
+    before the call, as SendRawMsg's overflow path does). -/
 theorem lock_scan_discriminates :
     NetParse.Locks.scanFrom [] NetParse.Locks.shapeGoto = [] ∧
     NetParse.Locks.scanFrom [] NetParse.Locks.shapeContinue = ["continue with a changed lock set: peersdb held"] ∧
     NetParse.Locks.scanFrom [] NetParse.Locks.shapeStoreLocked = [] ∧
     NetParse.Locks.scanFrom [] NetParse.Locks.shapeStoreBare = ["shared access without c.Mutex"] ∧
-    NetParse.Locks.scanFrom [] NetParse.Locks.shapeReturnHeld = ["return with c.Mutex held"] := by decide +kernel
+    NetParse.Locks.scanFrom [] NetParse.Locks.shapeReturnHeld = ["return with c.Mutex held"] ∧
+    NetParse.Locks.scanFrom [] NetParse.Locks.shapeCallUnlocked = [] ∧
+    NetParse.Locks.scanFrom [] NetParse.Locks.shapeCallDeferred =
+      ["call of a function that locks c.Mutex while it is held"] := by decide +kernel
 
 -- OPEN (not modelled, hence not stated): "whole handler" totality including the backend —
 -- ProcessNewHeader / PostCheckBlock / mempool matching / peer database; and the send-buffer
